@@ -155,6 +155,11 @@ def gen(rng):
 
 
 def main_():
+    if sys.argv[1] == 'replay':
+        spec = json.loads(sys.argv[2])
+        v = check(spec)
+        print(json.dumps({'cases': 1, 'violations': v}, default=str))
+        return
     import tempfile
     import shutil
     seed, count = int(sys.argv[2]), int(sys.argv[3])
